@@ -31,6 +31,7 @@ type C13Case struct {
 	Cause    string   `json:"cause"`     // see causes
 	Partial  int      `json:"partial"`   // bytes of an inbound message delivered right before the cause (0: none, -1: a whole message)
 	Parked   int      `json:"parked"`    // senders blocked on a stalled peer when the cause strikes
+	ParkKind string   `json:"park_kind"` // "send": an application Send; "resend": the inbound goroutine serving a ResendRequest (SendBatch)
 	DeltaNs  int64    `json:"delta_ns"`  // virtual time between the in-flight traffic and the cause
 	Deadline int64    `json:"deadline_ms"`
 }
@@ -79,6 +80,11 @@ func genC13(t *rapid.T) *C13Case {
 	}
 	if rapid.IntRange(0, 3).Draw(t, "parkedOnly") == 0 {
 		c.Parked = 1 // never more: a second sender would queue on the session mutex, which is not a durable wait
+	}
+	c.ParkKind = "send"
+	if c.Parked > 0 && len(c.Prefix) > 0 && c.Prefix[len(c.Prefix)-1] != "logout-in" && rapid.IntRange(0, 2).Draw(t, "parkResend") == 0 {
+		c.ParkKind = "resend"
+		c.Partial = 0 // the ResendRequest is the in-flight inbound message
 	}
 	if c.Cause == "bad-inbound" && c.Partial > 0 {
 		c.Partial = -1 // the offending message must arrive as a message of its own
@@ -176,7 +182,14 @@ func checkC13(c *C13Case, rec *evid.Rec) (vs []pbt.Violation) {
 		// in-flight traffic: senders parked on a peer that stopped reading
 		var parkedWG sync.WaitGroup
 		parkedDone := make([]bool, c.Parked)
-		if c.Parked > 0 {
+		if c.Parked > 0 && c.ParkKind == "resend" {
+			// the peer stops reading and asks for a resend: the inbound goroutine
+			// parks inside SendBatch, holding the handler mutex
+			conn.Stall(true)
+			conn.Feed((&rig.InMsg{Type: rig.TResendRequest, Seq: next(), Fields: []rig.Tok{rig.F(rig.TagBeginSeqNo, "1"), rig.F(rig.TagEndSeqNo, "0")}}).Bytes())
+			synctest.Wait()
+			parkedDone = nil
+		} else if c.Parked > 0 {
 			conn.Stall(true)
 			for k := 0; k < c.Parked; k++ {
 				k := k
@@ -231,8 +244,10 @@ func checkC13(c *C13Case, rec *evid.Rec) (vs []pbt.Violation) {
 			conn.Feed((&rig.InMsg{Type: "D", Seq: next(), Damage: "no-msgtype"}).Bytes())
 		}
 		if c.Parked > 0 {
-			// the blocked write's deadline passes some time after the cause
-			synctest.Wait()
+			// the blocked write's deadline passes after the cause. No wait for
+			// quiescence in between: Initiator.Serve's forwarding loop spins on a
+			// closed reader channel until its context is cancelled, and a spinning
+			// goroutine never lets synctest.Wait return.
 			conn.ExpireWrites()
 		}
 		// bounded settling time: close timeout + 2 T + 10 s
@@ -296,7 +311,7 @@ func checkC13(c *C13Case, rec *evid.Rec) (vs []pbt.Violation) {
 		return []pbt.Violation{pbt.V("harness", "%s", trouble)}
 	}
 	key := func(what string) string { return what + ":" + c.Role + ":" + c.Cause }
-	desc := fmt.Sprintf("%s, cause %s, buf %d, N %d, prefix %v, partial %d, parked %d", c.Role, c.Cause, c.Buf, c.N, c.Prefix, c.Partial, c.Parked)
+	desc := fmt.Sprintf("%s, cause %s, buf %d, N %d, prefix %v, partial %d, parked %d (%s)", c.Role, c.Cause, c.Buf, c.N, c.Prefix, c.Partial, c.Parked, c.ParkKind)
 	if !o.connClosed {
 		vs = append(vs, pbt.V(key("socket-not-closed"), "%s: the connection was not closed within the settling time\n%s", desc, o.stacks))
 	}
@@ -331,7 +346,7 @@ func checkC13(c *C13Case, rec *evid.Rec) (vs []pbt.Violation) {
 		rec.Hist("inflight:partial-inbound-message")
 	}
 	if c.Parked > 0 {
-		rec.Hist("inflight:parked-senders")
+		rec.Hist("inflight:parked-" + c.ParkKind)
 	}
 	if rec.WantSample() && pendingAtInjection {
 		rec.Sample(desc)
@@ -382,8 +397,11 @@ func enumC13() []*C13Case {
 		{"logon", "app-out", "logout-in"}, // during logout
 		{"logon", "app-in", "app-in", "app-out", "app-out", "testreq-in"},
 	}
-	type fl struct{ partial, parked int }
-	inflight := []fl{{0, 0}, {7, 0}, {40, 0}, {-1, 0}, {0, 1}, {-1, 1}, {20, 1}}
+	type fl struct {
+		partial, parked int
+		kind            string
+	}
+	inflight := []fl{{0, 0, "send"}, {7, 0, "send"}, {40, 0, "send"}, {-1, 0, "send"}, {0, 1, "send"}, {-1, 1, "send"}, {20, 1, "send"}, {0, 1, "resend"}}
 	var out []*C13Case
 	for _, role := range []string{"acceptor", "initiator"} {
 		causes := append([]string{}, causesBoth...)
@@ -396,9 +414,12 @@ func enumC13() []*C13Case {
 			for _, fam := range families {
 				for _, cause := range causes {
 					for _, f := range inflight {
-						c := &C13Case{Role: role, Buf: buf, N: 1, Prefix: fam, Cause: cause, Partial: f.partial, Parked: f.parked, Deadline: 600000}
+						c := &C13Case{Role: role, Buf: buf, N: 1, Prefix: fam, Cause: cause, Partial: f.partial, Parked: f.parked, ParkKind: f.kind, Deadline: 600000}
 						if cause == "bad-inbound" && c.Partial > 0 {
 							continue
+						}
+						if f.kind == "resend" && (len(fam) == 0 || fam[len(fam)-1] == "logout-in") {
+							continue // needs a logged-on session with stored messages
 						}
 						out = append(out, c)
 					}
